@@ -297,12 +297,16 @@ def snapshot(obj, foreign=(), inv=None):
                       for lab, tab in inv.symtabs()]
     snap['scoping'] = inv.scope_tokens(foreign)
     snap['attr-scoping'] = inv.attr_tokens(foreign)
+    # the same without the cache entries 'a%b' of derived-type members: loki adds such an entry whenever the type of a member
+    # is first looked up (also by inv.types() below), so their number is not a state of the unit (see symtabs())
+    snap['attr-scoping-declared'] = [t for t, (_, w) in zip(snap['attr-scoping'], inv.attr_occurrences)
+                                     if not w.endswith(':member-entry')]
     snap['types'] = no_lazy_deferred(inv.types())
     snap['names'] = [s.name.lower() for s, _ in inv.occurrences]
     return snap
 
 
-SNAP_KEYS = ('fgen', 'dump', 'symtab', 'scoping', 'attr-scoping', 'types')
+SNAP_KEYS = ('fgen', 'dump', 'symtab', 'scoping', 'attr-scoping-declared', 'types')
 
 
 def snapshot_diff(a, b):
